@@ -56,6 +56,7 @@ type State struct {
 	Dirty  map[string]bool     // arrays written on this path (names with prefix H:/M:/G:)
 	DirtyCells map[*Cell]bool
 	retSite string
+	Each   []*EachFact // element invariants of slices, instantiated at every element load
 	Defs   map[string]bool     // recursive spec-function applications already unfolded
 }
 
@@ -93,6 +94,7 @@ func (s *State) clone() *State {
 	for k, v := range s.Defs {
 		n.Defs[k] = v
 	}
+	n.Each = append([]*EachFact(nil), s.Each...)
 	n.PC = append([]*Term(nil), s.PC...)
 	n.Trace = append([]string(nil), s.Trace...)
 	return n
@@ -187,7 +189,22 @@ func (s *State) loadElem(arr, idx *Term, t types.Type) Value {
 	return v
 }
 
+func (s *State) dropEach(elem types.Type) {
+	if len(s.Each) == 0 {
+		return
+	}
+	k := typeKey(elem)
+	var keep []*EachFact
+	for _, f := range s.Each {
+		if f.ElemKey != k {
+			keep = append(keep, f)
+		}
+	}
+	s.Each = keep
+}
+
 func (s *State) storeElem(arr, idx *Term, v Value) {
+	s.dropEach(v.T)
 	ls := leavesOf(v.T)
 	for i, l := range ls {
 		n := memName(v.T, l.Path)
@@ -199,10 +216,22 @@ func (s *State) storeElem(arr, idx *Term, v Value) {
 // regionWrite overwrites [lo,hi) of arr for every leaf memory of elem type t
 // with contents given per leaf.
 func (s *State) regionWrite(arr, lo, hi *Term, t types.Type, content func(leaf Leaf, idx *Term) *Term) {
+	s.dropEach(t)
 	for _, l := range leavesOf(t) {
 		l := l
 		n := memName(t, l.Path)
 		s.Mem[n] = s.mem(n, l.Sort).with(MemWrite{Arr: arr, Lo: lo, Hi: hi, Content: func(idx *Term) *Term { return content(l, idx) }})
 		s.Dirty["M:"+n] = true
 	}
+}
+
+// EachFact: every element x of the slice (Arr,Off,Len) satisfies Pred(x); assumed
+// facts are instantiated whenever an element of that memory is loaded.
+type EachFact struct {
+	Arr, Off, Len *Term
+	ElemKey       string
+	Var           string
+	Pred          *SExpr
+	Env           *Env
+	Guard         *Term // fact holds under this condition
 }
